@@ -33,6 +33,9 @@ type MineStep struct {
 	Wait int       `json:"wait,omitempty"`
 	Rem  bool      `json:"remote,omitempty"`
 	Pct  int       `json:"pct,omitempty"` // tx: value as a percentage of the sender's current balance (0 = recipe value)
+	// sibling: the competing branch forks Depth blocks below the head and has Depth+Extra blocks
+	Depth int `json:"depth,omitempty"`
+	Extra int `json:"extra,omitempty"`
 }
 
 type MinePlan struct {
@@ -75,7 +78,7 @@ func GenMinePlan(rng *kernel.RNG, env *kernel.Env, k int) any {
 		case r < 9:
 			p.Steps = append(p.Steps, MineStep{Kind: "mine", Wait: []int{2, 2, 5, 30, 240, 600}[rng.Intn(6)]})
 		default:
-			p.Steps = append(p.Steps, MineStep{Kind: "sibling", Wait: []int{2, 10, 300}[rng.Intn(3)]})
+			p.Steps = append(p.Steps, MineStep{Kind: "sibling", Wait: []int{2, 10, 300}[rng.Intn(3)], Depth: []int{1, 1, 2, 3, 5}[rng.Intn(5)], Extra: rng.Intn(2)})
 		}
 	}
 	p.Steps = append(p.Steps, MineStep{Kind: "mine", Wait: 3}, MineStep{Kind: "mine", Wait: 3})
@@ -353,20 +356,37 @@ func execMine(p *MinePlan, col *kernel.Collector) []kernel.Violation {
 				return vs
 			}
 		case "sibling":
-			// a competing block from elsewhere on the head's parent: a side block
-			// (later an uncle candidate) or a reorganisation under the miner's feet
+			// a competing branch from elsewhere, forking off Depth blocks below the head and
+			// delivered block by block: its first blocks are side blocks (uncle candidates for
+			// the worker), a later one may overtake - a reorganisation under the miner's feet
+			// that turns former candidates into canonical ancestors
 			head := M.BC.CurrentBlock()
-			if head.NumberU64() == 0 {
+			depth := st.Depth
+			if depth < 1 {
+				depth = 1
+			}
+			if uint64(depth) > head.NumberU64() {
+				depth = int(head.NumberU64())
+			}
+			if depth == 0 {
 				continue
 			}
-			parent := M.BC.GetBlock(head.ParentHash(), head.NumberU64()-1)
-			blocks, _ := core.GenerateChain(M.BC.GetContext(), u.Cfg, parent, u.Engine, M.Disk, 1, func(_ int, g *core.BlockGen) {
+			parent := head
+			for k := 0; k < depth; k++ {
+				parent = M.BC.GetBlock(parent.ParentHash(), parent.NumberU64()-1)
+			}
+			n := depth + st.Extra
+			blocks, _ := core.GenerateChain(M.BC.GetContext(), u.Cfg, parent, u.Engine, M.Disk, n, func(k int, g *core.BlockGen) {
 				g.SetCoinbase(u.Addrs[1%len(u.Addrs)])
 				g.SetExtra([]byte(fmt.Sprintf("sib%d", i)))
-				g.OffsetTime(int64(st.Wait) - 240)
+				if k == 0 {
+					g.OffsetTime(int64(st.Wait) - 240)
+				} else {
+					g.OffsetTime(1 - 240)
+				}
 			})
-			if len(blocks) == 1 {
-				b := blocks[0]
+			reorged := false
+			for _, b := range blocks {
 				if b.Time().Int64() > time.Now().Unix() {
 					time.Sleep(time.Until(time.Unix(b.Time().Int64(), 0)) + time.Second)
 				}
@@ -376,15 +396,21 @@ func execMine(p *MinePlan, col *kernel.Collector) []kernel.Violation {
 				col.Inc("fault_competing_block_delivered")
 				time.Sleep(200 * time.Millisecond)
 				if M.BC.CurrentBlock().Hash() == b.Hash() {
-					col.Inc("probe_reorg_under_the_miner")
-					// the importer follows the miner node's canonical chain
-					imported = parent.NumberU64()
-					if imported > I.BC.CurrentBlock().NumberU64() {
-						imported = I.BC.CurrentBlock().NumberU64()
-					}
-					if !importOwn(i) {
-						return vs
-					}
+					reorged = true
+				}
+			}
+			if reorged {
+				col.Inc("probe_reorg_under_the_miner")
+				if depth > 1 {
+					col.Inc("probe_side_blocks_became_canonical_under_the_miner")
+				}
+				// the importer follows the miner node's canonical chain
+				imported = parent.NumberU64()
+				if imported > I.BC.CurrentBlock().NumberU64() {
+					imported = I.BC.CurrentBlock().NumberU64()
+				}
+				if !importOwn(i) {
+					return vs
 				}
 			}
 		}
